@@ -1512,6 +1512,12 @@ func buildFromStringProto(src protoreflect.FieldDescriptor, ext protoFieldExtens
 							Uuid: &schema_j5pb.KeyFormat_UUID{},
 						},
 					}
+				case ext_j5pb.KeyField_FORMAT_UNSPECIFIED:
+					keyField.Format = &schema_j5pb.KeyFormat{
+						Type: &schema_j5pb.KeyFormat_Informal_{
+							Informal: &schema_j5pb.KeyFormat_Informal{},
+						},
+					}
 				default:
 					return nil, fmt.Errorf("unknown key format %q", keyType.Format)
 				}
